@@ -156,7 +156,13 @@ func (c *ctx) ocClientResults(count int) {
 			stream = append(stream, xsens.NewMessage(xsens.MessageIdentifierReqOutputConfigurationAck, p)...)
 		}
 		scheds := c.schedules(len(stream), false)
-		port := &scriptedPort{r: &chunkReader{data: stream, sched: scheds[c.rng.Intn(len(scheds))], final: io.EOF}}
+		rd := &chunkReader{data: stream, sched: scheds[c.rng.Intn(len(scheds))], final: io.EOF}
+		if c.rng.Intn(3) == 0 {
+			// the port fails in the very read that brings the last acknowledge: the frames it holds come first
+			rd.final, rd.ewd = &portError{code: 5}, true
+			c.count("results-with-a-failing-last-read")
+		}
+		port := &scriptedPort{r: rd}
 		cl := xsens.NewClient(port)
 		results := make([]xsens.OutputConfiguration, k)
 		oks := make([]bool, k)
@@ -471,7 +477,13 @@ func init() {
 			if cutCk && again == nil {
 				sched = []int{len(stream) - 1, 1}
 			}
-			port := &scriptedPort{r: &chunkReader{data: stream, sched: sched, final: io.EOF}}
+			rd := &chunkReader{data: stream, sched: sched, final: io.EOF}
+			if c.rng.Intn(4) == 0 {
+				// the port fails in the very read that brings the (last) reply: the frames it holds come first
+				rd.final, rd.ewd = &portError{code: 6}, true
+				c.count("reply-with-a-failing-read")
+			}
+			port := &scriptedPort{r: rd}
 			cl := xsens.NewClient(port)
 			ctx := context.Background()
 			r := "RPan"
